@@ -1,11 +1,13 @@
 (* C06 - OK acknowledgements agree with what the relay actually did.
-   Assembled by tools/gen_props.py from Props/SQLM.v: property theorems only
+   Assembled by tools/gen_props.py from Props/SQLM.v, Props/KVW.v, Props/RELAY.v: property theorems only
    (statement, `exact`, Print Assumptions); the proofs live in the backend model directories.
    Each backend's theorems sit in their own module so that equally named definitions of the two
    backend models cannot shadow one another. *)
 From NR Require Lib.Base Lib.Nip01 SQLM.Rel SQLM.Write SQLM.Query SQLM.Text SQLM.Where SQLM.Req SQLM.Spec SQLM.Proofs_Text SQLM.Proofs_Shape SQLM.Proofs_Rel SQLM.Proofs_Write SQLM.Proofs_Gc SQLM.Proofs_Where SQLM.Proofs_Hist SQLM.Abbrev SQLM.Proofs_Const SQLM.Proofs_SaText SQLM.Thm_C09 SQLM.Thm_C08 SQLM.Thm_C17 SQLM.Thm_C07 SQLM.Thm_C06 SQLM.Thm_C01 SQLM.Thm_C12 SQLM.Thm_C02 SQLM.Thm_C11 SQLM.Run.
 From NR Require Gen.SqlConst Gen.Kinds.
 From Coq Require Sorting.Permutation.
+From NR Require KVW.Thm_C06 Lib.BaseFacts KVW.Thm_Common KVW.Queue KVW.Thm_C07 KVW.Thm_C08 KVW.Thm_C09 KVW.Thm_C17 KVW.Thm_Common Lib.Base Lib.Nip01 KVM.Engine KVM.Keys KVM.Scan KVW.Types KVW.Entries KVW.Write KVW.PostSave KVW.Gc KVW.Oracles KVW.Proofs_Engine KVW.Proofs_Tx KVW.Proofs_Keys KVW.Proofs_Coherent KVW.Proofs_Run KVW.Proofs_Fault KVW.Proofs_ScanUse KVW.Proofs_ScanOk KVW.Proofs_PostSave KVW.Proofs_Progress KVW.Proofs_Gc KVW.Proofs_Ack KVW.GenTie.
+From NR Require Lib.Base Lib.PyRt Lib.Nip01 Gen.Web Filt.Model Live.Model Live.Proofs RELAY.Model RELAY.Proofs RELAY.Eose.
 
 (* ================= SQL backend (nostr_relay/storage/db.py) ================= *)
 Module SQLM.
@@ -87,3 +89,202 @@ Example SQLM_history_inhabited :
 Proof. vm_compute. repeat split; reflexivity. Qed.
 
 End SQLM.
+
+(* ================= LMDB write path (kv.py indexes, writer thread, garbage collector) ================= *)
+Module KVW.
+Import KVW.Thm_C06 Lib.BaseFacts KVW.Thm_Common KVW.Queue KVW.Thm_C07 KVW.Thm_C08 KVW.Thm_C09 KVW.Thm_C17 KVW.Thm_Common Lib.Base Lib.Nip01 KVM.Engine KVM.Keys KVM.Scan KVW.Types KVW.Entries KVW.Write KVW.PostSave KVW.Gc KVW.Oracles KVW.Proofs_Engine KVW.Proofs_Tx KVW.Proofs_Keys KVW.Proofs_Coherent KVW.Proofs_Run KVW.Proofs_Fault KVW.Proofs_ScanUse KVW.Proofs_ScanOk KVW.Proofs_PostSave KVW.Proofs_Progress KVW.Proofs_Gc KVW.Proofs_Ack KVW.GenTie.
+Open Scope list_scope. Open Scope Z_scope.
+
+(* (d) a refusal leaves no trace: nothing is queued, nothing is broadcast *)
+Theorem C06_kv_refused_no_trace (valid : wevent -> bool) (valid_hex : forall w, valid w = true -> hex64 (w_id w) = true /\ hex64 (w_pubkey w) = true) now d p raw b q :
+  add_event valid now d p raw = (AckRaise, b, q) -> b = false /\ q = None.
+Proof. first [exact (C06_kv_refused_no_trace valid valid_hex now d p raw b q) | exact (C06_kv_refused_no_trace valid now d p raw b q) | exact (C06_kv_refused_no_trace valid_hex now d p raw b q) | exact (C06_kv_refused_no_trace now d p raw b q)]. Qed.
+Print Assumptions C06_kv_refused_no_trace.
+
+(* (e) resubmitting an event that is stored, or whose add is still queued: duplicate, nothing queued, nothing broadcast *)
+Theorem C06_kv_duplicate (valid : wevent -> bool) (valid_hex : forall w, valid w = true -> hex64 (w_id w) = true /\ hex64 (w_pubkey w) = true) now d p raw idb :
+  valid (ctor now raw) = true -> is_ephemeral_kind (w_kind (ctor now raw)) = false ->
+  storable (ctor now raw) = true -> id_bytes (ctor now raw) = Some idb ->
+  (exists e, rec_at d idb = Some e) \/ In (w_id (ctor now raw)) p ->
+  add_event valid now d p raw = (AckDuplicate, false, None).
+Proof. first [exact (C06_kv_duplicate valid valid_hex now d p raw idb) | exact (C06_kv_duplicate valid now d p raw idb) | exact (C06_kv_duplicate valid_hex now d p raw idb) | exact (C06_kv_duplicate now d p raw idb)]. Qed.
+Print Assumptions C06_kv_duplicate.
+
+Theorem C06_kv_duplicate_only_if_known (valid : wevent -> bool) (valid_hex : forall w, valid w = true -> hex64 (w_id w) = true /\ hex64 (w_pubkey w) = true) now d p raw b q :
+  add_event valid now d p raw = (AckDuplicate, b, q) ->
+  b = false /\ q = None /\ exists idb, id_bytes (ctor now raw) = Some idb /\
+                                      ((exists e, rec_at d idb = Some e) \/ In (w_id (ctor now raw)) p).
+Proof. first [exact (C06_kv_duplicate_only_if_known valid valid_hex now d p raw b q) | exact (C06_kv_duplicate_only_if_known valid now d p raw b q) | exact (C06_kv_duplicate_only_if_known valid_hex now d p raw b q) | exact (C06_kv_duplicate_only_if_known now d p raw b q)]. Qed.
+Print Assumptions C06_kv_duplicate_only_if_known.
+
+(* (c) a valid, storable event that is neither stored nor queued is never refused *)
+Theorem C06_kv_valid_accepted (valid : wevent -> bool) (valid_hex : forall w, valid w = true -> hex64 (w_id w) = true /\ hex64 (w_pubkey w) = true) now d p raw idb :
+  valid (ctor now raw) = true -> is_ephemeral_kind (w_kind (ctor now raw)) = false ->
+  storable (ctor now raw) = true -> id_bytes (ctor now raw) = Some idb -> rec_at d idb = None -> ~ In (w_id (ctor now raw)) p ->
+  add_event valid now d p raw = (AckTrue, true, Some (OAdd (ctor now raw))).
+Proof. first [exact (C06_kv_valid_accepted valid valid_hex now d p raw idb) | exact (C06_kv_valid_accepted valid now d p raw idb) | exact (C06_kv_valid_accepted valid_hex now d p raw idb) | exact (C06_kv_valid_accepted now d p raw idb)]. Qed.
+Print Assumptions C06_kv_valid_accepted.
+
+Theorem C06_kv_qinv_init (valid : wevent -> bool) (valid_hex : forall w, valid w = true -> hex64 (w_id w) = true /\ hex64 (w_pubkey w) = true) :
+  QInv (mkS init_db [] []).
+Proof. first [exact (C06_kv_qinv_init valid valid_hex) | exact (C06_kv_qinv_init valid) | exact (C06_kv_qinv_init valid_hex) | exact (C06_kv_qinv_init)]. Qed.
+Print Assumptions C06_kv_qinv_init.
+
+Theorem C06_kv_qinv_submit (valid : wevent -> bool) (valid_hex : forall w, valid w = true -> hex64 (w_id w) = true /\ hex64 (w_pubkey w) = true) now st raw a b st' :
+  now <> 0 -> QInv st -> submit valid now st raw = (a, b, st') -> QInv st'.
+Proof. first [exact (C06_kv_qinv_submit valid valid_hex now st raw a b st') | exact (C06_kv_qinv_submit valid now st raw a b st') | exact (C06_kv_qinv_submit valid_hex now st raw a b st') | exact (C06_kv_qinv_submit now st raw a b st')]. Qed.
+Print Assumptions C06_kv_qinv_submit.
+
+Theorem C06_kv_qinv_enqueue_del (valid : wevent -> bool) (valid_hex : forall w, valid w = true -> hex64 (w_id w) = true /\ hex64 (w_pubkey w) = true) st h :
+  QInv st -> QInv (enqueue_del st h).
+Proof. first [exact (C06_kv_qinv_enqueue_del valid valid_hex st h) | exact (C06_kv_qinv_enqueue_del valid st h) | exact (C06_kv_qinv_enqueue_del valid_hex st h) | exact (C06_kv_qinv_enqueue_del st h)]. Qed.
+Print Assumptions C06_kv_qinv_enqueue_del.
+
+(* the writer processes the head of the queue: any ending of its transaction *)
+Theorem C06_kv_qinv_writer_step (valid : wevent -> bool) (valid_hex : forall w, valid w = true -> hex64 (w_id w) = true /\ hex64 (w_pubkey w) = true) fault kill now st :
+  QInv st -> QInv (writer_step fault kill now st).
+Proof. first [exact (C06_kv_qinv_writer_step valid valid_hex fault kill now st) | exact (C06_kv_qinv_writer_step valid fault kill now st) | exact (C06_kv_qinv_writer_step valid_hex fault kill now st) | exact (C06_kv_qinv_writer_step fault kill now st)]. Qed.
+Print Assumptions C06_kv_qinv_writer_step.
+
+(* (b) OK=true is truthful in every interleaving: when the writer reaches the queued add - whatever
+   was submitted, queued or written in between - and the engine does not fail in that transaction, the
+   transaction commits and the event is stored, with every index entry (C10) *)
+Theorem C06_kv_ack_true_stored (valid : wevent -> bool) (valid_hex : forall w, valid w = true -> hex64 (w_id w) = true /\ hex64 (w_pubkey w) = true) now st w q :
+  QInv st -> s_queue st = OAdd w :: q ->
+  exists idb r d' ms, id_bytes w = Some idb /\ encode_event w = Some r /\
+    run_op None None now (s_db st) (OAdd w) = (d', Committed, ms) /\
+    s_db (writer_step None None now st) = d' /\ rec_at d' idb = Some r.
+Proof. first [exact (C06_kv_ack_true_stored valid valid_hex now st w q) | exact (C06_kv_ack_true_stored valid now st w q) | exact (C06_kv_ack_true_stored valid_hex now st w q) | exact (C06_kv_ack_true_stored now st w q)]. Qed.
+Print Assumptions C06_kv_ack_true_stored.
+
+(* what an acknowledgement OK=true of a non-ephemeral event means for the shared state *)
+Theorem C06_kv_ack_true_queued (valid : wevent -> bool) (valid_hex : forall w, valid w = true -> hex64 (w_id w) = true /\ hex64 (w_pubkey w) = true) now st raw b st' :
+  submit valid now st raw = (AckTrue, b, st') ->
+  is_ephemeral_kind (w_kind (ctor now raw)) = false ->
+  b = true /\ s_queue st' = s_queue st ++ [OAdd (ctor now raw)] /\ s_db st' = s_db st.
+Proof. first [exact (C06_kv_ack_true_queued valid valid_hex now st raw b st') | exact (C06_kv_ack_true_queued valid now st raw b st') | exact (C06_kv_ack_true_queued valid_hex now st raw b st') | exact (C06_kv_ack_true_queued now st raw b st')]. Qed.
+Print Assumptions C06_kv_ack_true_queued.
+
+(* acknowledged, then the engine fails at the first mutation: nothing stored (the full statement
+   "OK=true -> stored once the writer is idle" fails for fault <> None) *)
+Theorem C06_kv_ack_true_stored_refuted_engine_failure :
+  add_event (fun _ => true) 1000 init_db [] ex_event = (AckTrue, true, Some (OAdd ex_event)) /\
+  kv_engine_failure_after_ack (Some 0%nat) None = true /\
+  db_after (Some 0%nat) None 1000 init_db (OAdd ex_event) = init_db.
+Proof. exact (C06_kv_ack_true_stored_refuted_engine_failure). Qed.
+Print Assumptions C06_kv_ack_true_stored_refuted_engine_failure.
+
+(* ---- supporting theorems of this backend model (invariants, ties to the source, non-vacuity) ---- *)
+Theorem NoDup_app_single (valid : wevent -> bool) (valid_hex : forall w, valid w = true -> hex64 (w_id w) = true /\ hex64 (w_pubkey w) = true) {A} (l : list A) x :
+  NoDup l -> ~ In x l -> NoDup (l ++ [x]).
+Proof. first [exact (NoDup_app_single valid valid_hex l x) | exact (NoDup_app_single valid l x) | exact (NoDup_app_single valid_hex l x) | exact (NoDup_app_single l x)]. Qed.
+Print Assumptions NoDup_app_single.
+
+Theorem add_ids_app (valid : wevent -> bool) (valid_hex : forall w, valid w = true -> hex64 (w_id w) = true /\ hex64 (w_pubkey w) = true) q1 q2 :
+  add_ids (q1 ++ q2) = add_ids q1 ++ add_ids q2.
+Proof. first [exact (add_ids_app valid valid_hex q1 q2) | exact (add_ids_app valid q1 q2) | exact (add_ids_app valid_hex q1 q2) | exact (add_ids_app q1 q2)]. Qed.
+Print Assumptions add_ids_app.
+
+Theorem queued_ids_inflight (valid : wevent -> bool) (valid_hex : forall w, valid w = true -> hex64 (w_id w) = true /\ hex64 (w_pubkey w) = true) d infl q :
+  Forall (queued_ok d infl) q -> forall x, In x (add_ids q) -> In x infl.
+Proof. first [exact (queued_ids_inflight valid valid_hex d infl q) | exact (queued_ids_inflight valid d infl q) | exact (queued_ids_inflight valid_hex d infl q) | exact (queued_ids_inflight d infl q)]. Qed.
+Print Assumptions queued_ids_inflight.
+
+Theorem queued_ok_weaken (valid : wevent -> bool) (valid_hex : forall w, valid w = true -> hex64 (w_id w) = true /\ hex64 (w_pubkey w) = true) d infl x op :
+  queued_ok d infl op -> queued_ok d (x :: infl) op.
+Proof. first [exact (queued_ok_weaken valid valid_hex d infl x op) | exact (queued_ok_weaken valid d infl x op) | exact (queued_ok_weaken valid_hex d infl x op) | exact (queued_ok_weaken d infl x op)]. Qed.
+Print Assumptions queued_ok_weaken.
+
+(* a transaction never makes a record appear under another id than the one it adds *)
+Theorem odel_no_new (valid : wevent -> bool) (valid_hex : forall w, valid w = true -> hex64 (w_id w) = true /\ hex64 (w_pubkey w) = true) fault kill now d h x e :
+  Coh d -> rec_at (db_after fault kill now d (ODel h)) x = Some e -> rec_at d x = Some e.
+Proof. first [exact (odel_no_new valid valid_hex fault kill now d h x e) | exact (odel_no_new valid fault kill now d h x e) | exact (odel_no_new valid_hex fault kill now d h x e) | exact (odel_no_new fault kill now d h x e)]. Qed.
+Print Assumptions odel_no_new.
+
+Theorem oadd_no_new (valid : wevent -> bool) (valid_hex : forall w, valid w = true -> hex64 (w_id w) = true /\ hex64 (w_pubkey w) = true) fault kill now d w idb x e :
+  Coh d -> event_wf w -> id_bytes w = Some idb -> rec_at d idb = None ->
+  x <> idb -> rec_at (db_after fault kill now d (OAdd w)) x = Some e -> rec_at d x = Some e.
+Proof. first [exact (oadd_no_new valid valid_hex fault kill now d w idb x e) | exact (oadd_no_new valid fault kill now d w idb x e) | exact (oadd_no_new valid_hex fault kill now d w idb x e) | exact (oadd_no_new fault kill now d w idb x e)]. Qed.
+Print Assumptions oadd_no_new.
+
+Theorem wf_id_bytes_inj (valid : wevent -> bool) (valid_hex : forall w, valid w = true -> hex64 (w_id w) = true /\ hex64 (w_pubkey w) = true) w1 w2 idb :
+  event_wf w1 -> event_wf w2 -> id_bytes w1 = Some idb -> id_bytes w2 = Some idb -> w_id w1 = w_id w2.
+Proof. first [exact (wf_id_bytes_inj valid valid_hex w1 w2 idb) | exact (wf_id_bytes_inj valid w1 w2 idb) | exact (wf_id_bytes_inj valid_hex w1 w2 idb) | exact (wf_id_bytes_inj w1 w2 idb)]. Qed.
+Print Assumptions wf_id_bytes_inj.
+
+Theorem remove_str_In (valid : wevent -> bool) (valid_hex : forall w, valid w = true -> hex64 (w_id w) = true /\ hex64 (w_pubkey w) = true) x y l :
+  In y l -> y <> x -> In y (remove_str x l).
+Proof. first [exact (remove_str_In valid valid_hex x y l) | exact (remove_str_In valid x y l) | exact (remove_str_In valid_hex x y l) | exact (remove_str_In x y l)]. Qed.
+Print Assumptions remove_str_In.
+
+Theorem run_dels_fold now l :
+  forall d0,
+  run_dels now d0 l = fold_left (fun d op => db_after None None now d op) (map (fun b => ODel (hex_of_bytes b)) l) d0.
+Proof. exact (run_dels_fold now l). Qed.
+Print Assumptions run_dels_fold.
+
+Theorem gc_pass_is_gc_ops T now d :
+  gc_pass T now d = fold_left (fun d op => db_after None None now d op) (gc_ops T d) d.
+Proof. exact (gc_pass_is_gc_ops T now d). Qed.
+Print Assumptions gc_pass_is_gc_ops.
+
+Theorem inv_init :
+  Inv init_db.
+Proof. exact (inv_init). Qed.
+Print Assumptions inv_init.
+
+Theorem inv_step d s :
+  Inv d -> op_ok d (s_op s) -> Inv (run_step d s).
+Proof. exact (inv_step d s). Qed.
+Print Assumptions inv_step.
+
+Theorem inv_history l :
+  forall d, Inv d -> steps_ok d l -> Inv (run_steps d l).
+Proof. exact (inv_history l). Qed.
+Print Assumptions inv_history.
+
+Theorem run_op_committed fault kill now d op d' ms :
+  run_op fault kill now d op = (d', Committed, ms) ->
+  exists t', op_body fault now op {| t_db := d; t_log := [] |} = Ok tt t' /\ d' = t_db t'.
+Proof. exact (run_op_committed fault kill now d op d' ms). Qed.
+Print Assumptions run_op_committed.
+
+End KVW.
+
+(* ================= connection handler (web.start_client) ================= *)
+Module RELAY.
+Import Lib.Base Lib.PyRt Lib.Nip01 Gen.Web Filt.Model Live.Model Live.Proofs RELAY.Model RELAY.Proofs RELAY.Eose.
+Open Scope Z_scope.
+
+(* C06(a): whatever the storage answers - accepted, duplicate, refused by a validator or by the role
+   check, or an unexpected exception - an EVENT message is answered by exactly one OK frame and the
+   connection stays open *)
+Theorem C06_relay_one_ok_per_event : forall cfg st c x m rows prep cq add auth st' x' d,
+  validate_message m = true -> as_str (jv_nth 0 m) = pys "EVENT" -> c_open x = true ->
+  handle_msg cfg st c x m false rows prep cq add auth = (st', x', d) ->
+  d = DContinue /\ exists f, c_out x' = f :: c_out x /\ is_ok f = true.
+Proof. exact event_one_ok. Qed.
+Print Assumptions C06_relay_one_ok_per_event.
+
+(* a rate-limited EVENT is answered by one OK false as well (whatever its payload looks like, as far as modelled) *)
+Theorem C06_relay_limited_event_one_ok : forall cfg st c x m rows prep cq add auth st' x' d,
+  validate_message m = true -> as_str (jv_nth 0 m) = pys "EVENT" -> c_open x = true ->
+  handle_msg cfg st c x m true rows prep cq add auth = (st', x', d) ->
+  d = DUnmodelled \/ (d = DContinue /\ exists f, c_out x' = f :: c_out x /\ is_ok f = true).
+Proof.
+  intros cfg st c x m rows prep cq add auth st' x' d Hv Hc Ho. unfold handle_msg. rewrite Hv, Hc. simpl.
+  destruct (jv_nth 1 m); try (intros E; inversion E; subst; right; split; [reflexivity|];
+    eexists; split; [simpl; rewrite emit_out_open by assumption; reflexivity | reflexivity]).
+  destruct (jget (pys "id") kv) as [[]|]; intros E; inversion E; subst; try (left; reflexivity);
+    right; (split; [reflexivity|]); eexists; (split; [simpl; rewrite emit_out_open by assumption; reflexivity | reflexivity]).
+Qed.
+Print Assumptions C06_relay_limited_event_one_ok.
+
+(* ---- supporting theorems of this backend model (invariants, ties to the source, non-vacuity) ---- *)
+Theorem RELAY_live_filter_characterised : forall f e,
+  live_filter f e = has_cond f && core_match f e
+                    && after_closed (w_created e) (f_since f) && before_open (w_created e) (f_until f).
+Proof. exact live_filter_spec. Qed.
+Print Assumptions RELAY_live_filter_characterised.
+
+End RELAY.
